@@ -174,6 +174,21 @@ def compare(res, ctx, lines, label, project=None, oracle=None, variant="asan", m
     return hout, mout
 
 
+def run_corpus(res, ctx):
+    """minimised past failures (the replays of the repaired defects) run first"""
+    path = os.path.join(ROOT, "corpus", ctx.pid + ".txt")
+    if not os.path.exists(path):
+        return
+    lines = [l.rstrip("\n") for l in open(path) if l.strip() and not l.startswith("#")]
+    project = status_class if ctx.pid in ("C05",) else None
+    known = [k for k in core.load_known() if k.get("kind") == "known" and k.get("property") == ctx.pid]
+    hout, mout = compare(res, ctx, lines, "regression corpus (replays of repaired defects)", project=project,
+                         rule="corpus/%s.txt: the inputs on which the defects listed in known_findings.json were found" % ctx.pid)
+    res.cov["corpus_lines"] = len(lines)
+    for k in known:
+        res.known.append(k.get("what", ""))
+
+
 def finish_broken(res, ctx):
     """a broken proof obligation with no failing input found is still a violation"""
     if ctx.broken and not ctx.found_input:
@@ -1541,6 +1556,7 @@ def run(pid, tier, seed):
             if not ok:
                 ctx.broken.append("model driver does not build: " + out[-800:])
         if os.path.exists(ctx.model):
+            run_corpus(res, ctx)
             c["fn"](res, ctx)
         else:
             ctx.broken.append("no model driver binary; correspondence not run")
